@@ -34,9 +34,11 @@ Definition online_ok (pp : params) (o : online) : Prop :=
 Definition dgram_ok (pp : params) (d : dgram) : Prop :=
   match d with
   | DChunks tok ack rr n cs =>
+    tok_ok tok /\
     0 <= ack < SEQ_MOD /\ n = Z.of_nat (length cs) /\ n <= 255 /\ Forall (chunk_ok pp) cs /\
     chunks_dgram_size pp tok (chunks_size cs) <= MAX_PACKETSIZE
   | DControl tok ack c =>
+    tok_ok tok /\
     0 <= ack < SEQ_MOD /\ control_size pp tok c <= MAX_PACKETSIZE /\
     match c with Close r => forallb (fun b => negb (b =? 0)) r = true | _ => True end
   | DConnless _ _ p => Z.of_nat (length p) <= MAX_PAYLOAD
@@ -124,7 +126,7 @@ Proof.
   { unfold online_ok, o_clear. cbn. pose proof (pc_empty_ok pp Hpp).
     repeat split; try assumption; try lia; try apply H. }
   split.
-  { constructor; [|constructor]. unfold dgram_ok. repeat split; try assumption; try lia. }
+  { constructor; [|constructor]. unfold dgram_ok. split; [exact Htok|]. repeat split; try assumption; try lia. }
   unfold o_clear. cbn. do 5 (split; [reflexivity|]). split; [intros H; discriminate H|].
   intros _. repeat split.
 Qed.
